@@ -145,6 +145,29 @@ def check_continue_from(ck, td):
             ck.case(("cf", kind, periodic))
             if not ok:
                 continue
+            # ... and the continued file is itself restarted later (its first recorded block is 2, not 0)
+            fa7 = os.path.join(td, "CA7.hdf5")
+            if os.path.exists(fa7):
+                os.remove(fa7)
+            def run2():
+                with rc.instrumented(round_state=True):
+                    rc.run_driver(kind, f2, 7, periodic)
+                    rc.run_driver(kind, fa7, 7, periodic)
+            ok2, _ = ck.guarded(run2, "restart", SITES[kind], dict(inp, second_restart_to=7))
+            if ok2:
+                d7, _ = rc.read_file(f2)
+                da7, _ = rc.read_file(fa7)
+                if d7["block"].astype(int).tolist() != [2, 3, 4, 5, 6]:
+                    ck.violation("restart_block_bookkeeping", SITES[kind], dict(inp, second_restart_to=7), expected=[2, 3, 4, 5, 6], got=d7["block"].tolist(),
+                                 oracle="a file that starts at block 2 continues at block 5: no gap, no duplicate, total as requested")
+                else:
+                    bad = [k for k in rc.per_block(d7) if k in da7 and not np.array_equal(d7[k], da7[k][2:], equal_nan=True)]
+                    if bad:
+                        ck.violation("continue_from_differs_from_uninterrupted", SITES[kind], dict(inp, second_restart_to=7, first_resumed_block_identical=None), expected="rows 2..6 of the uninterrupted run", got=sorted(bad)[:8])
+                # restore the 5-block state of f2 for the comparisons below
+                os.remove(f2)
+                with rc.instrumented(round_state=True):
+                    rc.run_driver(kind, f2, 5, periodic, continue_from=f1)
             d2, _ = rc.read_file(f2)
             da, _ = rc.read_file(fa)
             if d2["block"].astype(int).tolist() != [2, 3, 4]:
@@ -162,12 +185,12 @@ def check_continue_from(ck, td):
                              expected="rows 2..4 of the uninterrupted run", got=sorted(diffs)[:8], oracle="dataset-by-dataset exact comparison")
 
 
-def pred_dmc_history(v):
+def pred_dmc_chain(v):
     i = v.get("input") or {}
-    return i.get("driver") == "dmc" and i.get("first_resumed_block_identical") is True
+    return i.get("driver") == "dmc" and i.get("continue_from") is True and i.get("second_restart_to") is not None
 
 
-KNOWN = {"dmc separate file: first resumed block identical": pred_dmc_history}
+KNOWN = {"dmc: file continued from another file, then restarted itself": pred_dmc_chain}
 
 
 def main(argv):
